@@ -66,8 +66,7 @@ def r3(ctx):
     ok = fact_is(r'^RawEncryptedField::decrypt\(', 'Ok')
     # the two mutable locals of the loop are found by type, not by name: the cookie slot (Option<DecodedServerCookie>) and the validity flag (the bool set to false)
     cookie_l = {i for i, l in enumerate(b.locals) if l.get('user') and 'DecodedServerCookie' in l['ty'] and l['ty'].startswith('core::option::Option<')}
-    flag_l = {i for i, l in enumerate(b.locals) if l.get('user') and l['ty'] == 'bool' and
-              sorted(written_value(b, Site_) for Site_ in b.assigns(lambda pl, i=i: not pl['p'] and pl['l'] == i) if Site_.kind == 'assign')[:1] == ['0']}
+    flag_l = set(flag_locals(b))
     sites = [s for s in b.calls(r'Vec::append$|Extend::extend$')] + [s for s in b.assigns(lambda pl: not pl['p']) if s.kind == 'assign' and s.data['place']['l'] in cookie_l
                                                                     and 'Option::None' != written_value(b, s)[:12]]
     n = 0
